@@ -182,7 +182,7 @@ func (u *Unit) topReturn(st *State, fr *Frame, res []Val) {
 	}
 	env := u.entryEnv(top, top.Entry)
 	env.st = st
-	env.fr = nil
+	env.fr = fr
 	rts := resultTypes(u.Fn.Signature)
 	var rterms []Term
 	for _, r := range res {
